@@ -248,3 +248,18 @@ Proof.
   - apply new_free_le_room.
   - intros H. unfold new_free. apply N.ltb_lt in H. now rewrite H.
 Qed.
+
+(** * CPU branch: what is loaded next to other runners fits the reported free system memory *)
+Lemma sched_cpu_load_fits loaded g np_env emb mp o p :
+  sched_cpu loaded g np_env emb mp o = CpuLoad p ->
+  p = cpu_parallel np_env emb /\ (1 <= p)%Z /\
+  (loaded <> O -> r_total (plan_for [g] (mp p) o) <= x_free g).
+Proof.
+  unfold sched_cpu, plan_for. cbn [map].
+  assert (Hp : (1 <= cpu_parallel np_env emb)%Z).
+  { unfold cpu_parallel, default_parallel. destruct emb; [cbn; lia|]. destruct (np_env <=? 0)%Z eqn:E; lia. }
+  destruct (Nat.eqb loaded 0) eqn:E0.
+  - intros H; inversion H; subst. repeat split; auto. apply Nat.eqb_eq in E0. congruence.
+  - destruct (r_total (estimate [x_g g] (mp (cpu_parallel np_env emb)) o) <=? x_free g) eqn:E; [|discriminate].
+    intros H; inversion H; subst. repeat split; auto. intros _. now apply N.leb_le.
+Qed.
